@@ -204,7 +204,7 @@ def run_ahc_top(case, seed):
     if E.max() >= top:
         return {"ok": False, "key": "harness:spectrum_bound", "detail": f"{E.max()} >= {top}"}
     nkexp = int(np.prod(dense))          # the Grid may enlarge the requested NK (minimal FFT grid of the R-set)
-    if np.any(np.array(dense) < np.array(NK)) or O.shape != (nkexp, s.num_wann, 3):
+    if O.shape != (nkexp, s.num_wann, 3):
         return {"ok": False, "key": "tabulate:grid_shape", "detail": f"{syskey(case['sys'])} NK={NK} dense={dense} shape {O.shape}"}
     ksum = np.abs(O.sum(axis=1)).max(axis=1)                    # per k
     kscale = np.maximum(1.0, np.abs(O).max(axis=(1, 2)))
